@@ -12,19 +12,25 @@ VARIABLES hist, ffrom
 gvars == <<vars, hist, ffrom>>
 gview == <<mode, open, lastm, cache, flts, npk, ffrom>>
 GInit == Init /\ hist = <<>> /\ ffrom \in FaultFrom
-RowList(f) == [k \in 1..24 |-> IF k \in DOMAIN f THEN f[k] ELSE 0]
-Ver(v) == [pg |-> v.pg, sub |-> v.sub, nat |-> v.nat, rows |-> RowList(v.rows), flof |-> v.flof,
+\* rows and links: the SET of allowed contents / link set ids (0 = blank / no link) per row 1..24 and link 1..6
+RowList(f) == [k \in 1..24 |-> IF k \in DOMAIN f THEN f[k] ELSE {0}]
+Ver(v) == [pg |-> v.pg, sub |-> v.sub, nat |-> v.nat, rows |-> RowList(v.rows), links |-> v.links,
            e |-> v.enh.e, n |-> v.enh.n, shown |-> Shown(v), must |-> MustShow(v)]
 TermOut == [i \in 1..Len(term') |-> Ver(term'[i])]
 GNext == /\ npk < MaxPk /\ Next /\ (lastAct'.flt # Ok => npk >= ffrom)
          /\ hist' = Append(hist, [act |-> lastAct', term |-> TermOut]) /\ UNCHANGED ffrom
 GSpec == GInit /\ [][GNext]_gvars
 OpenKeys == {<<open[m].pg, open[m].sub>> : m \in {x \in Mags : open[x] # None}}
-Out == [mode |-> mode, steps |-> hist, final |-> {Ver(c) : c \in cache}, open |-> OpenKeys]
+\* ovr: per X/26 packet of the model the positions whose character the enhancement data supply (the damage is put on the
+\* parity bit there: the fall-back character sent with even parity of EN 300 706 table 25)
+Out == [mode |-> mode, steps |-> hist, final |-> {Ver(c) : c \in cache}, open |-> OpenKeys,
+        ovr |-> [e \in 1..Len(Progs) |-> Overridden(Progs[e])]]
 \* an invariant is evaluated once per distinct state (by the VIEW): one behaviour per final state
 Dump == npk = MaxPk => PrintT(<<"TR", ToJson(Out)>>)
 \* only behaviours with a fault whose last packet terminates a page (a comparison point)
 DumpT == (npk = MaxPk /\ term # <<>> /\ flts # <<>>) => PrintT(<<"TR", ToJson(Out)>>)
+\* behaviours whose last packet terminates a page that has (had) FLOF links, with and without faults
+DumpL == (npk = MaxPk /\ term # <<>> /\ \E k \in Links : term[1].links[k] # {0}) => PrintT(<<"TR", ToJson(Out)>>)
 \* only behaviours with a fault
 DumpF == (npk = MaxPk /\ flts # <<>>) => PrintT(<<"TR", ToJson(Out)>>)
 =============================================================================
